@@ -10,6 +10,7 @@ dispatch decisions, each over its complete finite domain, by running the real tr
 Assumed (listed): SQLAlchemy's documented meaning of Join.isouter/full, UnaryExpression modifiers, CompoundSelect keywords, operators.
 Bounded stand-in: original text vs sqlite rendering executed on sqlite3 over small tables with NULLs and duplicates."""
 import itertools, sqlite3
+import re
 from vlib import repo, lrtab, corpus
 from vlib.core import PROVED, FAILED, UNDECIDED, Bounded
 
@@ -109,6 +110,61 @@ def join_obligations(rep):
             rep.proved(oid, 'pysym', f'{jt} -> {kind} join of ({l}, {rr})', function=FN, clause=clause)
         else:
             rep.failed(oid, 'pysym', f'{jt} is rendered as a {kind} join of ({l}, {rr}); reference: {ref} join of (a, b)', function=FN, clause=clause, replay=replay_exec(sql))
+
+
+def join_chain_obligations(rep):
+    """chains of two joins over three tables: every ordered pair of join kinds; the element tree must be Join(Join(a, b, kind1), c, kind2) - the kind of one
+    join must not leak into the next one (per-iteration state of the loop that folds the join list)"""
+    import sqlalchemy as sa
+    kinds = [k for k in join_types_of_grammars() if REF_JOIN.get(k) in ('inner', 'left', 'full')]
+    for j1 in kinds:
+        for j2 in kinds:
+            oid = f'C06.join.chain.{j1.replace(" ", "_")}.{j2.replace(" ", "_")}'
+            sql = f'select * from a {j1} b on a.id = b.id {j2} c on b.id = c.id'
+            clause = 'a chain a J1 b J2 c is rendered as Join(Join(a, b, Ref(J1)), c, Ref(J2)), or refused'
+            try:
+                r, stmt, q = stmt_of(sql)
+                j = stmt.get_final_froms()[0]
+            except Exception as e:
+                if isinstance(e, (NotImplementedError, SQLAlchemyError)):
+                    rep.proved(oid, 'pysym', f'refused ({type(e).__name__}) rather than mistranslated', function=FN, clause=clause)
+                else:
+                    rep.failed(oid, 'pysym', f'rendering raises {type(e).__name__}: {e}'[:150], function=FN, clause=clause, replay=replay_exec(sql))
+                continue
+
+            def kind_of(x):
+                return 'full' if x.full else ('left' if x.isouter else 'inner')
+            ok = isinstance(j, sa.sql.selectable.Join) and isinstance(j.left, sa.sql.selectable.Join) and getattr(j.right, 'name', None) == 'c' \
+                and (getattr(j.left.left, 'name', None), getattr(j.left.right, 'name', None)) == ('a', 'b') \
+                and kind_of(j.left) == REF_JOIN[j1] and kind_of(j) == REF_JOIN[j2]
+            if ok:
+                rep.proved(oid, 'pysym', f'{REF_JOIN[j1]} then {REF_JOIN[j2]}', function=FN, clause=clause)
+            else:
+                got = f'{kind_of(j.left) if isinstance(j.left, sa.sql.selectable.Join) else "?"} then {kind_of(j) if isinstance(j, sa.sql.selectable.Join) else "?"}'
+                rep.failed(oid, 'pysym', f'`{sql}` is rendered as {got}; reference: {REF_JOIN[j1]} then {REF_JOIN[j2]}', function=FN, clause=clause, replay=replay_exec(sql))
+
+
+def aggregate_obligations(rep):
+    """DISTINCT inside an aggregate is kept whatever the argument is (column, expression, function call, qualified column, constant), in every clause"""
+    args = {'col': 'a', 'qualified': 't.a', 'expr': 'a + 1', 'mul': 'a * 2', 'func': 'upper(b)', 'case': 'case when a > 1 then a else 0 end', 'cast': 'cast(a as int)'}
+    for fname in ('count', 'sum', 'avg', 'min', 'group_concat'):
+        for an, atext in args.items():
+            for clause_name, tmpl in (('select', 'select {f} from t'), ('having', 'select b from t group by b having {f} > 1'), ('order', 'select b from t group by b order by {f}')):
+                oid = f'C06.agg.distinct.{fname}.{an}.{clause_name}'
+                sql = tmpl.format(f=f'{fname}(distinct {atext})')
+                clause = 'f(DISTINCT x) is rendered with DISTINCT for every argument x, or refused'
+                try:
+                    txt = text_of(sql)
+                except Exception as e:
+                    if isinstance(e, (NotImplementedError, SQLAlchemyError)):
+                        rep.proved(oid, 'pysym', f'refused ({type(e).__name__})', function=FN, clause=clause)
+                    else:
+                        rep.failed(oid, 'pysym', f'rendering raises {type(e).__name__}: {e}'[:150], function=FN, clause=clause, replay=replay_exec(sql))
+                    continue
+                if re.search(r'\(\s*distinct\b', txt, re.I):
+                    rep.proved(oid, 'pysym', 'DISTINCT kept', function=FN, clause=clause)
+                else:
+                    rep.failed(oid, 'pysym', f'`{sql}` is rendered as `{txt}`: DISTINCT is lost', function=FN, clause=clause, replay=replay_exec(sql))
 
 
 def order_obligations(rep):
@@ -720,6 +776,8 @@ def check(rep, tier):
                'semantic equivalence over all data is NOT decided (sqlite3 samples only)')
     rep.trust('SQLAlchemy', 'sqlite3 3.40 as reference engine')
     join_obligations(rep)
+    join_chain_obligations(rep)
+    aggregate_obligations(rep)
     order_obligations(rep)
     list_obligations(rep)
     dml_obligations(rep)
